@@ -75,6 +75,15 @@ bool makeInitial(const json& src, NifFile& nif, Ctx& ctx, std::string* fileBytes
 		ctx.probe("initial_state_with_unknown_blocks");
 		ctx.fault("F-SKEW");
 	}
+	if (src.contains("layout")) {
+		// another legal on-disk block order (blocks moved to the front / swapped, node order kept): what other exporters write
+		for (auto& sl : src["layout"]) {
+			json e = {{"op", "MoveBlocks"}, {"salt", sl.get<uint64_t>()}};
+			applyEdit(nif, e, ctx);
+		}
+		if (fileBytes) fileBytes->clear();
+		ctx.probe("initial_state_in_another_block_order");
+	}
 	if (src.contains("edits")) {
 		for (auto& e : src["edits"]) applyEdit(nif, e, ctx);
 		if (fileBytes) fileBytes->clear(); // the bytes no longer describe the model
